@@ -86,15 +86,25 @@ fn pool(seed: u64, n: usize) -> Vec<Cfg> {
             v.push(d);
         }
         if i % 4 == 3 && v.len() < n {
+            // the pair is only worth something if it yields showdowns: an empty window is widened by three positions
+            if c.scoped && c.from == c.to && c.from.0 < 46 {
+                c.to = crate::flop::succ(crate::flop::succ(crate::flop::succ(c.from)));
+                let last = v.len() - 1;
+                v[last].to = c.to;
+            }
             // the same ranges and scope on another flop, right after the original: same seats, turn and river cards mostly the same
+            // (one flop card replaced: by the next rank of the same suit, or by the card 16 or 32 ids away - the flops then agree
+            // on every card but one and on most bits of that one, whatever a packed or shortened key of the flop would keep)
             let mut d = c.clone();
             let mut f = d.flop;
-            let mut k = (f[0] + 4) % 52;
+            let which = (i / 4) % 3;
+            let step = [4usize, 16, 32, 48, 1, 2, 8][(i / 12) % 7];
+            let mut k = (f[which] + step) % 52;
             let busy: Vec<usize> = d.ranges.iter().flat_map(|r| r.iter().flat_map(|e| [e.a, e.b])).collect();
             while f.contains(&k) || busy.contains(&k) {
-                k = (k + 1) % 52;
+                k = (k + 4) % 52;
             }
-            f[0] = k;
+            f[which] = k;
             d.flop = f;
             v.push(d);
         }
